@@ -74,7 +74,7 @@ JShapes == {"exact", "nover", "space", "keycase", "esc", "extra", "dupLast", "du
             "params0", "paramsNull", "params2", "paramsObj", "noparams", "idStr", "idNull", "idNeg",
             "path", "query", "get", "chunked", "ctype", "xff"}
 JExact == {"exact", "nover", "space", "keycase", "esc", "extra", "dupLast", "dupCase", "gzresp", "params2",
-           "query", "chunked", "ctype", "xff", "idNeg"}   \* shapes both decoders accept: the target method is executed when admitted
+           "chunked", "ctype", "xff"}   \* shapes both decoders accept: the target method is executed when admitted
 GShapes == {"plain", "gzip", "md", "mlower", "svc", "asstream"}
 GExact == {"plain", "gzip", "md"}
 EShapes == {"post", "batch", "gz", "xff", "ws"}
@@ -249,7 +249,8 @@ NextSim == /\ pend' = pend
 \* row export ("all"): every configuration of the universe, then ONE request row.  Rows enumerated:
 \*   JSON-RPC  every address x method x credentials class with the exact shape (quick: bad / missing
 \*             credentials from the core addresses only), and
-\*             core addresses x every other shape x two target methods x {good, none} credentials;
+\*             core addresses x every other shape x two target methods with good credentials
+\*             (and without credentials from the listed address);
 \*   gRPC      every address x method (plain), core addresses x method x every other shape;
 \*   Ethereum  every address x every shape.
 \* (Lvl = 1, quick tier: the same scheme with fewer core addresses / targets / credentials classes)
@@ -264,7 +265,7 @@ NextAll == \/ /\ ncfg = 0 /\ NextMC
               /\ \/ \E a \in Addrs, m \in Methods, p \in CredsX :
                        (Lvl = 2 \/ p = "good" \/ a \in AddrCore) /\ ReqJ(a, m, NextM(m), p, "exact")
                  \/ \E a \in AddrCore, sh \in JShapes \ {"exact"}, m \in TargX, p \in CredsS :
-                       ReqJ(a, m, NextM(m), p, sh)
+                       (p = "good" \/ a = "A") /\ ReqJ(a, m, NextM(m), p, sh)
                  \/ \E a \in Addrs, m \in GMethods : ReqG(a, m, "plain")
                  \/ \E a \in AddrCore, m \in GTargX, sh \in GShapes \ {"plain"} : ReqG(a, m, sh)
                  \/ \E a \in Addrs, sh \in (IF Lvl = 1 THEN {"post", "ws"} ELSE EShapes) : ReqE(a, sh)
@@ -275,7 +276,7 @@ Spec == Init /\ [][Next]_vars
 
 -----------------------------------------------------------------------------
 \* What TLC checks.
-TypeOK == /\ ncfg \in 0..MaxCfgs /\ ncfg = 0 <=> cur = NoCfg
+TypeOK == /\ ncfg \in 0..MaxCfgs /\ (ncfg = 0 <=> cur = NoCfg)
           /\ (ncfg > 0 => cur \in applied)
 
 \* The mechanism never lets a handler run that the reference forbids - for one configuration
